@@ -79,6 +79,9 @@ TRUSTED = [
     "replayed (the theorems quantify over all answer sequences); the engines behind RuleDBBase's _pruned_dict cache "
     "are abstract in Searcher/Cache.v, their idempotence contract is checked on the real code at every pickling point",
 ]
+# measured values quoted in the strings below (quick tier): covered by add_hist / find_rule_total, share with mode 0,
+# covered by emptiness_truthful - of the compared table runs
+F17A, F17M0, F17E = "about 44%", "about 50%", "about 91%"
 ASSUMPTIONS = [
     "the searcher's state after k packets is a deterministic function of the universe, the database flavour and the "
     "history of has_specification() calls (pruning databases mark labels verified when asked) - validated by Parts A3 "
@@ -92,9 +95,25 @@ ASSUMPTIONS = [
     "C17_auto_search_fuel / C17_run_calls_fuel bound the fuel in terms of the packets the queue can still hand out "
     "(n_avail - k, resp. packets_bounded s N); that a real search's queue is bounded is per instance (C17_packets_bounded_when_dry "
     "gives the bound once a dry turn has been met)",
+    "the hypotheses of the composed theorems are DECIDED on every compared table run: the extracted run_c17 evaluates "
+    "(mode =? 0) && table_hyps_b, (mode =? 0) && find_rule_hyps_b and pe_contractb / sym_contractb (Searcher/Deciders.v, "
+    "Contracts.v; C17_resumed_search_gives_add_hist_decided / _find_rule_total_decided / _emptiness_truthful_decided restate "
+    "the theorems over these booleans) on the table part of the case with pack = pack_of inferral initial expansion; the "
+    "plugin computes the same bits with c04.py's predicates and both are part of the compared output. Covered (quick "
+    "tier, seeds 0-2): C17_resumed_search_gives_add_hist and _find_rule_total " + F17A + " of the compared table runs (" +
+    F17M0 + " of them have mode 0 = a pruning database, the hypothesis mode =? 0; of those the rest break pe_contract, "
+    "sym_contract or sym_unary on purpose); C17_resumed_search_emptiness_truthful (any mode) " + F17E + "; extra_checks "
+    "fails below 35% / 80%. packets_in (a theorem here) and items_plain hold by construction: a false verdict is an "
+    "oracle failure. WORD universes: the state machine is not run on them and the hypotheses are not evaluated - the "
+    "composed theorems say nothing about the compared word runs",
 ]
 
 PERCS = [1, 2, 5, 10, 20, 25, 50, 100]
+# minimum shares of the compared table runs on which the extracted deciders must say that the hypotheses of the composed
+# theorems hold (set from the measured values, see extra_checks); add_hist needs mode 0 = a pruning database (half of
+# the rule databases drawn) AND the table hypotheses
+MIN_COVERED_ADD_HIST = 0.35
+MIN_COVERED_EMPTINESS = 0.8
 XPROC_FRACTION = 0.04
 
 
@@ -934,6 +953,20 @@ def _table_part(case, answers):
             list(p["inferral"]), list(p["initial"]), [list(x) for x in p["expansion"]], list(answers)]
 
 
+def _hyp_bits(case, step_calls):
+    """the table hypotheses of C17_resumed_search_gives_add_hist / _find_rule_total / _emptiness_truthful decided in
+    Python (harness/props/hyps.py: the predicates of c04.py) on the universe of the case and the packets the real queue
+    handed out in the compared calls - the same ten bits Searcher/SlicingRun.v hyps_c17 prints:
+    [mode0 && table_hyps, mode0 && find_rule_hyps, mode0, pe, sym, sym_unary, items_plain, packets_in, cap, reversible]"""
+    from harness.props import hyps
+
+    mode0 = int(case["ruledb"] in ("base", "forget"))
+    packets = [[e[1], e[2], e[3]] for c in step_calls for e in c[3] if e[0] == 0]
+    b = hyps.bits(case["universe"], packets)
+    table_ok = int(bool(b[2] and b[3] and b[4] and b[5]))
+    return [int(bool(mode0 and table_ok)), int(bool(mode0 and table_ok and b[7] and b[8])), mode0] + b[2:]
+
+
 def _uninterrupted(case, points, total, crashed):
     """ONE _expand_classes_for run (no slices, no time limit, no second call), consulting has_specification at
     the packet counts `points`, stopped after `total` packets.  Returns (events, state, answers, exception name)."""
@@ -1253,7 +1286,10 @@ def impl(case):
     out["model_in"] = [R["n_avail"], 100 // case["perc"], R["model_calls"]]
     if table:
         final = [ERR.get(crashed, 0) if crashed else 0, 0] + (cur["members"] or _members(css)) + (cur["full"] or _full_members(css))
-        out["out"] = [results, [init_events, R["step_calls"], final]]
+        # last element: the verdict of the theorems' table hypotheses, compared by the core with what the extracted
+        # deciders (Searcher/Deciders.v, evaluated by run_c17 on the table part) print
+        out["hyp"] = _hyp_bits(case, R["step_calls"])
+        out["out"] = [results, [init_events, R["step_calls"], final, out["hyp"]]]
         out["model_in"].append(_table_part(case, ctx.answers))
     else:
         out["out"] = results
@@ -1433,6 +1469,14 @@ def oracle(case, res):
     for p in res["problems"]:
         if p.startswith("failing input") or p.startswith("harness:"):
             return p
+    hb = res.get("hyp")
+    if hb and not (hb[7] and hb[6]):
+        # hold BY CONSTRUCTION on this stream: the packets come from the real DefaultQueue (packets_in is the theorem
+        # search_in_pack of the queue model, which is why the C17 theorems do not assume it), and the table generators
+        # let factories hide plain strategies only.  The contracts and sym_unary are broken on purpose by a share of
+        # the universes (weak / wild regimes, factories used as symmetries): tags only.
+        return ("harness: %s violated, which holds by construction of the queue / the table generators (hypothesis of "
+                "C17_resumed_search_gives_add_hist)" % ("packets_in" if not hb[7] else "items_plain"))
     # control-flow facts decided directly on the real run
     n_avail, mult, calls = res["model_in"][:3]
     prev_k = 0
@@ -1488,6 +1532,15 @@ def classify(case, res):
         tags.append("step_machine_compared")
         npk = sum(1 for c in res["out"][1][1] for e in c[3] if e[0] == 0)
         tags.append("step_packets<=5" if npk <= 5 else "step_packets<=20" if npk <= 20 else "step_packets>20")
+    hb = res.get("hyp")
+    if hb:
+        from harness.props import hyps
+
+        b9 = [0, 0] + hb[3:]
+        m0 = [("mode 0 (pruning database)", bool(hb[2]))]
+        tags.append(hyps.verdict_tag("C17_resumed_search_gives_add_hist", b9, "search", also=m0))
+        tags.append(hyps.verdict_tag("C17_resumed_search_find_rule_total", b9, "find_rule", also=m0))
+        tags.append(hyps.verdict_tag("C17_resumed_search_emptiness_truthful", b9, "contracts"))
     tags.append("pickle_points=%d" % len(res.get("pickled_at", [])))
     for f in sorted(set(res.get("facts", []) + res.get("xfacts", []))):
         tags.append(f)
@@ -1642,6 +1695,27 @@ def extra_checks(ctx):
             xf[f] = xf.get(f, 0) + 1
     res.append(("information: searchers restored in a fresh interpreter (other PYTHONHASHSEED) among the retained cases",
                 True, "%d searchers; %s" % (jobs, ", ".join("%s=%d" % kv for kv in sorted(xf.items())) or "-")))
+    # coverage of the composed theorems: compared table runs (state machine compared) on which the extracted deciders
+    # say the hypotheses hold
+    from harness.props import hyps
+
+    hbs = [r["hyp"] for r in results if isinstance(r, dict) and r.get("hyp")]
+    nm0 = sum(1 for hb in hbs if hb[2])
+    why_not = {}
+    for hb in hbs:
+        if hb[2]:
+            for m in hyps.missing([0, 0] + hb[3:], "search")[:1]:
+                why_not[m] = why_not.get(m, 0) + 1
+    res.append(hyps.coverage_check(
+        "C17_resumed_search_gives_add_hist", [bool(hb[0]) for hb in hbs], MIN_COVERED_ADD_HIST, "compared table runs",
+        "%d of them with mode 0 (pruning database: the hypothesis mode =? 0; the forest databases are outside the "
+        "theorem); among the mode-0 runs not covered because of: %s; C17_resumed_search_find_rule_total: %d covered"
+        % (nm0, why_not or "-", sum(1 for hb in hbs if hb[1]))))
+    res.append(hyps.coverage_check(
+        "C17_resumed_search_emptiness_truthful", [bool(hb[3] and hb[4]) for hb in hbs], MIN_COVERED_EMPTINESS,
+        "compared table runs", "every database mode; verdicts = the extracted deciders on the table part of the case, "
+        "equal to the Python predicates on every case (part of the compared output); packets_in (a theorem here, not a "
+        "hypothesis) true on all %d runs" % sum(1 for hb in hbs if hb[7])))
     if ctx.tier != "thorough":
         return res
     rng = random.Random(ctx.seed + 17)
@@ -1673,7 +1747,9 @@ TECHNIQUE = (
     "calls, equal the uninterrupted iteration; the control-flow model is the state machine's control flow; fuel bounds; "
     "the C04 conclusions for every sliced run) + extracted-model/implementation correspondence of event traces and "
     "full final state across interruptions + pickle/resume oracle with a harness-side deep comparison and restores in "
-    "a fresh interpreter"
+    "a fresh interpreter; the table hypotheses (and mode 0) of the composed theorems C17_resumed_search_* are decided per "
+    "compared table run by extracted deciders (verdict compared with the harness's predicates; covered fraction "
+    "reported and enforced)"
 )
 LEVEL_TEXT = (
     "State transformation (Searcher/Step.v, proofs StepProofs.v, Resume.v): `step` = one turn of the loop of _expand_classes_for "
@@ -1706,6 +1782,10 @@ LEVEL_TEXT = (
     "stores are those of a RuleDB state reached by an add_hist history, the emptiness cache is truthful, and C02's model of "
     "SpecificationRuleExtractor._find_rule turns every key of rule_to_strategy and of eqv_rule_to_strategy back into a rule "
     "filed under that key - C04_search_gives_add_hist / C02_search_find_rule_total for interrupted and resumed searches; "
+    "the three *_decided corollaries restate them with the table hypotheses replaced by the booleans run_c17 prints for "
+    "the table part of every compared table run (last element of the state-machine output, compared with the plugin's "
+    "Python verdict): they cover " + F17A + " (add_hist / find_rule_total: mode 0 AND contracts; " + F17M0 + " have mode 0) and " +
+    F17E + " (emptiness_truthful) of the compared table runs and no word run; "
     "ghost predicate Gres of Searcher/ResumeHist.v, which unlike C04's does not mention the trace the state machine "
     "forgets between packets). Control flow (Slicing.v): C17_resume_from / "
     "C17_notfound_only_when_exhausted (about the parameter n_avail) / C17_exceeded_only_past_limit. Pickle.v / Cache.v: "
